@@ -16,7 +16,6 @@ import (
 	"io"
 	"os"
 	"runtime/debug"
-	"runtime/pprof"
 	"sort"
 	"strconv"
 	"strings"
@@ -611,20 +610,13 @@ const smallDepth = 6
 
 func main() {
 	run := evid.New("C12", "model_checking")
-	if pf := os.Getenv("C12_CPUPROFILE"); pf != "" {
-		f, err := os.Create(pf)
-		if err != nil {
-			run.Fatal(err)
-		}
-		pprof.StartCPUProfile(f)
-		go func() { time.Sleep(20 * time.Second); pprof.StopCPUProfile(); f.Close(); os.Exit(3) }()
-	}
 	// memory.NewStore requires a Go memory limit to be configured
 	debug.SetMemoryLimit(1 << 40)
 
 	run.Rule = "explicit-state BFS (dedup on file content+offset+buffer-observable state) over all histories up to depth d of " +
 		"Write(|p|), WriteAt(|p|,off), Read(n), ReadAt(n,off), Seek(off,whence) with |p| in a small set, " +
-		"off in {0,1,size-1,size,size+1,size+3} (+ rejected -1), n in {0,1,size,size+2}, seeks to targets inside [0,size] via all three whence values; " +
+		"off in {0,1,size-1,size,size+1,size+3} (+ rejected -1), n in {0,1,size,size+2}, seeks to targets inside [0,size] via all three whence values " +
+		"(thorough adds deeper searches over a reduced alphabet: |p| in {0,1,3}, off in {0,size-1,size,size+2}, n in {1,size+2}); " +
 		"every transition executed on the real buffer and on a real *os.File (tmpfs), compared on bytes returned, byte counts, size, offset and full content. " +
 		"distinct = distinct (buffer kind, operation geometry class, capacity growth, result class) combinations exercised."
 	run.Assume("small-scope: payload lengths, offsets and read lengths from the stated alphabet; initial capacities {0,1,4}; single handle, single goroutine")
